@@ -11,6 +11,7 @@ import (
 	"strings"
 
 	"github.com/ccbrown/api-fu/graphql"
+	gschema "github.com/ccbrown/api-fu/graphql/schema"
 
 	"verifharness/internal/rng"
 	"verifharness/internal/sexp"
@@ -594,7 +595,20 @@ func (s *schemaDef) build() (*graphql.Schema, error) {
 			additional = append(additional, types[d.name])
 		}
 	}
-	def := &graphql.SchemaDefinition{Query: types[s.query].(*graphql.ObjectType), AdditionalTypes: additional}
+	def := &graphql.SchemaDefinition{Query: types[s.query].(*graphql.ObjectType), AdditionalTypes: additional,
+		// @include / @skip, and a directive without behaviour that is allowed at every location (so
+		// that LoadSchema's mapping of every introspected location name is exercised)
+		Directives: map[string]*graphql.DirectiveDefinition{
+			"include": graphql.IncludeDirective,
+			"skip":    graphql.SkipDirective,
+			"tag": {Locations: []gschema.DirectiveLocation{
+				gschema.DirectiveLocationQuery, gschema.DirectiveLocationMutation, gschema.DirectiveLocationSubscription,
+				gschema.DirectiveLocationField, gschema.DirectiveLocationFragmentDefinition, gschema.DirectiveLocationFragmentSpread,
+				gschema.DirectiveLocationInlineFragment, gschema.DirectiveLocationSchema, gschema.DirectiveLocationScalar,
+				gschema.DirectiveLocationObject, gschema.DirectiveLocationFieldDefinition, gschema.DirectiveLocationArgumentDefinition,
+				gschema.DirectiveLocationInterface, gschema.DirectiveLocationUnion, gschema.DirectiveLocationEnum,
+				gschema.DirectiveLocationEnumValue, gschema.DirectiveLocationInputObject, gschema.DirectiveLocationInputFieldDefinition}},
+		}}
 	if s.mutation != "" {
 		def.Mutation = types[s.mutation].(*graphql.ObjectType)
 	}
